@@ -10,7 +10,7 @@ access and runs under the C01 oracle (gcsim::probe). Exit: 0 held, 1 violation, 
 import json, os, subprocess, sys, time, glob, shutil
 from concurrent.futures import ThreadPoolExecutor
 
-VERIF = "/verif"
+VERIF = os.path.dirname(os.path.dirname(os.path.abspath(__file__)))
 REPO = os.environ.get("VERIF_REPO", "/repo")
 OUT = os.environ.get("VERIF_OUT", VERIF)
 SEED = int(os.environ.get("VERIF_SEED", "1"))
